@@ -350,11 +350,14 @@ PROPS["C11"] = dict(
 PROPS["C17"] = dict(
     level="other", units=["geom"], lemmas=[],
     kani=["k_tables_%s_%d" % (g, k) for g, n in _GROUPS.items() for k in range(n)] + ["k_parse_swap", "k_parse_parens", "k_parse_const_first", "k_parse_neg_const", "k_parse_mixed", "k_parse_reject_one", "k_parse_reject_three"],
-    explanation="Verus proves, on the real per-character `match` of from_operations taken as a slice, the transition function of the notation (x / y set the coefficient of the current row to the pending sign and reset it; '-' sets the pending sign; "
-                "a digit sets the constant, or divides it after '/', with the pending sign; blanks and '+' change nothing; any other character is an error) and that no index or arithmetic in it can trap for row index < 2. "
-                "Kani runs the whole real parser on every string the crate itself parses (19, complete for that set) and on five further grammar strings and two non-grammar strings (bounded stand-ins, labelled). "
-                "The induction 'folding the transition over any string of the grammar yields the denoted row' is NOT done: undecided, not assumed.",
-    assumptions=_GEOM_ASSUMPTIONS[:1] + ["digit_val shim: `c.to_string().parse::<u64>()? as f64` on a character matched by '0'..='9' returns its decimal value and cannot fail"],
-    undecided=["whole-grammar theorem (induction over strings)", "the split on ',' / trim of parentheses and the dimension check are string-library code, exercised only by the concrete strings",
-               "non-ASCII input: the slice's `other => Err` clause covers every char outside the listed ones, but only for the `match` as written"],
+    explanation="Verus, on the real text of from_operations: (1) the per-character `match` (statement slice fo_char) refines the notation's transition function step_row (fo.step) and cannot trap; (2) the WHOLE function (component loop and "
+                "character loop, R16/R16c) returns Ok with matrix rows (a, b, k) = fold of step_row over the characters of each of the two components whenever both fold, third row zero, and Err when there are not exactly two components "
+                "(fo.whole, fo.dims; loop invariants fo.inv*); (3) the induction over strings (fo.grammar, fo.component: counted proof obligations): for every component made of an x term, a y term and a single-digit rational constant "
+                "in ANY order, each at most once, with signs, optional '+' and optional blanks, the fold equals the value of the expression (coefficient of x, of y, constant) — so every string of the grammar parses to the map it denotes. "
+                "No reachable panic in the function for any input (body obligations). Kani runs the whole real parser, string library included, on the 19 strings the crate itself parses (complete for that set) and on seven further strings (bounded stand-ins).",
+    assumptions=_GEOM_ASSUMPTIONS[:1] + ["digit_val shim: `c.to_string().parse::<u64>()? as f64` on a character matched by '0'..='9' returns its decimal value and cannot fail",
+                                         "string-library shims: `trim_matches(&['(', ')']).split_terminator(',').collect()` yields the components ops_spec(s) (uninterpreted: which substrings they are is not proved), `op.chars()` yields the characters of the component in order"],
+    undecided=["that the components of \"(r0,r1)\" are r0 and r1 (semantics of trim_matches/split_terminator) is string-library code: assumed through ops_spec, exercised by the Kani strings and the parse_grammar oracle",
+               "'*' and a digit after an operator other than '/' are outside the notation: step_row is undefined there and the contract only requires no panic",
+               "non-ASCII input: every char outside the listed ones reaches the `other => Err` arm of the `match` as written"],
 )
